@@ -38,7 +38,12 @@ def run_case(case):
                     if rng.random() < 0.4 and len(sc.files) > 1:
                         others = [x for x in sc.files if x != sc.log[-1][1]]
                         sc.do_edit(author="human", f=rng.choice(others), kinds=["ins"])
-                        sc.g("add", "--", sc.log[-1][1]); sc.g("commit", "-q", "-m", "only another file")
+                        if sc.profile.get("unstaged_replacement_hunks", True):
+                            sc.g("add", "--", sc.log[-1][1]); sc.g("commit", "-q", "-m", "only another file")
+                        else:
+                            # finding D75: a plain `git commit` would also take whatever else is staged (after reset --soft, git mv ...)
+                            # while the work tree differs from it by hunks that remove lines; commit exactly this path instead
+                            sc.g("add", "--", sc.log[-1][1]); sc.g("commit", "-q", "-m", "only another file", "--", sc.log[-1][1])
                 ch = sc.op_destructive()
                 destr += 1
                 sc.human_overwrite_same_lines()
